@@ -212,7 +212,9 @@ func genC07(t *rapid.T) c07Case {
 	n := rapid.IntRange(3, 8).Draw(t, "nsubsets")
 	for i := 0; i < n; i++ {
 		var sub []int
-		switch rapid.IntRange(0, 3).Draw(t, "subsetkind") {
+		switch rapid.IntRange(0, 4).Draw(t, "subsetkind") {
+		case 4: // directory-wise
+			sub = []int{-100000 - rapid.IntRange(0, 1<<16-1).Draw(t, "dirmask")}
 		case 0: // crash point: a prefix of the write order
 			k := rapid.IntRange(1, 40).Draw(t, "prefixlen")
 			sub = []int{-k}
@@ -234,9 +236,37 @@ func genC07(t *rapid.T) c07Case {
 	return c
 }
 
-func resolveSubset(sub []int, n int) map[int]bool {
+func resolveSubset(sub []int, names []string) map[int]bool {
+	n := len(names)
 	keep := map[int]bool{}
 	if n == 0 {
+		return keep
+	}
+	if len(sub) == 1 && sub[0] <= -100000 {
+		// directory-wise: the files of a module's states / outputs / index directory are all kept or all gone (a
+		// cache left by requests for other output modules, or evicted per directory); bit j of the mask = j-th directory
+		mask := -sub[0] - 100000
+		var dirs []string
+		seen := map[string]bool{}
+		for _, rel := range names {
+			d := filepath.Dir(rel)
+			if !seen[d] {
+				seen[d] = true
+				dirs = append(dirs, d)
+			}
+		}
+		sort.Strings(dirs)
+		kept := map[string]bool{}
+		for j, d := range dirs {
+			if mask&(1<<(j%16)) != 0 {
+				kept[d] = true
+			}
+		}
+		for i, rel := range names {
+			if kept[filepath.Dir(rel)] {
+				keep[i] = true
+			}
+		}
 		return keep
 	}
 	if len(sub) == 1 && sub[0] < 0 && sub[0] > -1000 {
@@ -319,7 +349,7 @@ func checkC07(c c07Case) (*ev.Failure, c07Stats) {
 		}
 	} else {
 		for _, sub := range c.Subsets {
-			subsets = append(subsets, resolveSubset(sub, n))
+			subsets = append(subsets, resolveSubset(sub, u.names))
 		}
 	}
 
